@@ -280,3 +280,10 @@ package streams
 //@   safe
 //@   pure
 //@   ensures result != nil && spec_fresh(result) && result.Reader != nil && result.Connection != nil    :wrapper_complete
+
+// ---- C01 / C06: every inbound byte of a session goes through the one buffered reader (bytes the reader
+// already holds would otherwise be skipped and delivered out of order): Read touches the reader only
+//@ func (bf BufferedInputConnection) Read
+//@   property C01, C06
+//@   requires bf.Reader != nil
+//@   modifies bf.Reader.*, p[*]
